@@ -134,6 +134,9 @@ type caseRun struct {
 	lastDoneAt   time.Time
 	timeout      time.Duration
 	inconclusive string
+	definitive   bool   // WriteTimeout cannot fire; a met level that is not reported is established from goroutine states
+	workerGID    string
+	parked       bool // writerParked evidence obtained
 	lateReleased int // non-silent owners whose turn came after the write had returned
 	syncFallback int
 }
@@ -425,7 +428,7 @@ func (c *caseRun) await(ch chan struct{}) awaitResult {
 		return awOK
 	default:
 	}
-	wait := 20 * time.Millisecond
+	wait := 40 * time.Millisecond
 	t := time.NewTimer(wait)
 	defer t.Stop()
 	begin := time.Now()
@@ -436,12 +439,18 @@ func (c *caseRun) await(ch chan struct{}) awaitResult {
 		case <-t.C:
 		}
 		if atomic.LoadInt32(&c.nodeIDCalls) >= int32(c.spec.N) || atomic.LoadInt32(&c.retFlag) == 1 {
-			if inflightOf(c.label) == 0 {
-				select {
-				case <-ch:
-					return awOK
-				default:
-					return awGone
+			q := askInflight(c.label)
+			select {
+			case <-ch:
+				return awOK
+			case n := <-q.resp:
+				if n == 0 {
+					select {
+					case <-ch:
+						return awOK
+					default:
+						return awGone
+					}
 				}
 			}
 		}
@@ -494,11 +503,73 @@ func profiler() {
 
 // inflightOf: owner goroutines (closures of writeToShardWithContext) of the
 // labelled case that are not parked in a gate; "" = of any case.
-func inflightOf(label string) int {
+func inflightOf(label string) int { return <-askInflight(label).resp }
+
+func askInflight(label string) profReq {
 	profOnce.Do(func() { go profiler() })
 	q := profReq{label, make(chan int, 1)}
 	profReqs <- q
-	return <-q.resp
+	return q
+}
+
+// writerParked is the clock-free evidence that a writer does not report a
+// level that was met: in one consistent dump of all goroutines, the goroutine
+// that collects the owners' answers for the write started by goroutine
+// workerGID is blocked in its select (a goroutine with an answer waiting in
+// its channel is runnable, not blocked), and every owner goroutine it started
+// has either ended - its answer was therefore sent - or is one of the owners
+// that never answer, parked in a gate.
+var (
+	stackMu    sync.Mutex
+	stackBuf   []byte
+	stackDumps int64
+	reGHeader  = regexp.MustCompile(`^goroutine (\d+) \[([^\]]+)\]:`)
+)
+
+func myGID() string {
+	var b [64]byte
+	n := runtime.Stack(b[:], false)
+	if m := reGHeader.FindSubmatch(b[:n]); m != nil {
+		return string(m[1])
+	}
+	return ""
+}
+
+func writerParked(workerGID string) bool {
+	if workerGID == "" {
+		return false
+	}
+	stackMu.Lock()
+	defer stackMu.Unlock()
+	atomic.AddInt64(&stackDumps, 1)
+	if stackBuf == nil {
+		stackBuf = make([]byte, 64<<20)
+	}
+	n := runtime.Stack(stackBuf, true)
+	if n == len(stackBuf) {
+		return false // truncated dump: no evidence
+	}
+	blocks := strings.Split(string(stackBuf[:n]), "\n\n")
+	writer := ""
+	for _, blk := range blocks {
+		if strings.Contains(blk, "WritePointsPrivilegedWithContext in goroutine "+workerGID+"\n") &&
+			strings.Contains(blk, "coordinator.(*PointsWriter).writeToShardWithContext(") {
+			m := reGHeader.FindStringSubmatch(blk)
+			if m == nil || !strings.HasPrefix(m[2], "select") {
+				return false
+			}
+			writer = m[1]
+		}
+	}
+	if writer == "" {
+		return false
+	}
+	for _, blk := range blocks {
+		if strings.Contains(blk, "writeToShardWithContext in goroutine "+writer+"\n") && !strings.Contains(blk, "(*caseRun).gateWait") {
+			return false
+		}
+	}
+	return true
 }
 
 func dumpInflight() (map[string]int, int) {
@@ -556,6 +627,9 @@ func (c *caseRun) run(w *worker, timeout time.Duration) {
 
 	// goroutines started from here on inherit the label
 	pprof.SetGoroutineLabels(pprof.WithLabels(context.Background(), pprof.Labels("c03", c.label)))
+	if c.definitive {
+		c.workerGID = myGID()
+	}
 	c.startAt = time.Now()
 	w.seq <- c
 	err := pw.WritePointsPrivileged(dbName, rpName, c.spec.Level, thePoints)
@@ -624,13 +698,39 @@ func (c *caseRun) sequence() {
 		}
 	}
 
-	wd := time.NewTimer(c.timeout + 90*time.Second)
-	select {
-	case <-c.returned:
-	case <-wd.C:
-		c.inconclusive = "WritePointsPrivileged did not return"
+	if c.definitive && c.inconclusive == "" {
+		begin := time.Now()
+	poll:
+		for {
+			t := time.NewTimer(200 * time.Millisecond)
+			select {
+			case <-c.returned:
+				t.Stop()
+				break poll
+			case <-t.C:
+			}
+			if writerParked(c.workerGID) {
+				select {
+				case <-c.returned:
+				default:
+					c.parked = true
+				}
+				break poll
+			}
+			if time.Since(begin) > 120*time.Second {
+				c.inconclusive = "the write neither returned nor was its collecting goroutine seen blocked with every answer taken"
+				break poll
+			}
+		}
+	} else {
+		wd := time.NewTimer(c.timeout + 90*time.Second)
+		select {
+		case <-c.returned:
+		case <-wd.C:
+			c.inconclusive = "WritePointsPrivileged did not return"
+		}
+		wd.Stop()
 	}
-	wd.Stop()
 	// only now may the owners that "never answer" go on
 	for _, o := range c.own {
 		if o.out == oSilent {
